@@ -358,7 +358,7 @@ class Ops(Stream):
 
     def gen(self, rng, tier):
         self.shard = 130 if tier == 'quick' else 400   # small shards: the quick tier then uses all jobs
-        n = 500 if tier == 'quick' else 8000
+        n = 300 if tier == 'quick' else 8000
         out = []
         for _ in range(n):
             ty = rng.choice([CAP, LAB])
@@ -680,7 +680,7 @@ class Json(Stream):
 
     def gen(self, rng, tier):
         self.shard = 130 if tier == 'quick' else 400   # small shards: the quick tier then uses all jobs
-        n = 500 if tier == 'quick' else 8000
+        n = 300 if tier == 'quick' else 8000
         out = []
         for _ in range(n):
             ty = rng.choice([CAP, LAB])
@@ -969,7 +969,7 @@ class PoolsS(Stream):
 
     def gen(self, rng, tier):
         self.shard = 130 if tier == 'quick' else 400   # small shards: the quick tier then uses all jobs
-        n = 400 if tier == 'quick' else 6000
+        n = 250 if tier == 'quick' else 6000
         ex = self.exhaustive()
         out = ex if tier != 'quick' else rng.sample(ex, 60)
         for _ in range(n):
@@ -1133,7 +1133,7 @@ class Inc(Stream):
 
     def gen(self, rng, tier):
         self.shard = 130 if tier == 'quick' else 400   # small shards: the quick tier then uses all jobs
-        n = 300 if tier == 'quick' else 5000
+        n = 200 if tier == 'quick' else 5000
         out = []
         for _ in range(n):
             ty = rng.choice([CAP, LAB])
@@ -1247,8 +1247,9 @@ class Annotate(Stream):
     header = HEADER
     case_type = '(verdicts * dtype * list pspec * list (str * dtype * list spec)) * val'
     check_fn = 'check_annotate'
-    rule = ('a pool family plus single-pool delegations on further nodes written into a real NetworkX ARM graph of 6 '
-            'nodes by annotate_delegations_and_pools (mode direct) or by Topology.single_delegation from the nodes\' own '
+    rule = ('a pool family plus single-pool delegations on further elements written into a real NetworkX ARM graph with '
+            'EVERY element kind that can carry a delegation (server node, GPU component, NIC component and its port, switch '
+            'node, network service of the switch, port of that service) by annotate_delegations_and_pools (mode direct) or by Topology.single_delegation from the nodes\' own '
             'capacities / labels (mode single), read back with get_delegations and incorporated; incl. a single delegation '
             'on a node that takes part in a pool (rejected) and of the other type; non-trivial = at least one pool and one '
             'single delegation written, or a rejection; distinct by case value')
@@ -1321,13 +1322,43 @@ class Annotate(Stream):
                 dels[node] = ds
                 built.append([node, obs_delegations(ds)])
             res['singles_built'] = built
-            kw = {}
-            for i, nid in enumerate(NODES):
-                kw = {}
+            # a model with every element kind that can carry a delegation: node-0 a server node, node-1 a GPU component
+            # on it, node-2 the interface of a NIC component ('nic-comp', service 'nic-ns') on it, node-3 a switch node,
+            # node-4 a network service of the switch, node-5 an interface of that service
+            def own(nid):
                 if case['mode'] == 'single' and nid in dels:
                     obj = dels[nid].get_delegations_as_list()[0].get_details()
-                    kw = {'capacities': obj} if ty == CAP else {'labels': obj}
-                topo.add_node(name='nd%d' % i, site='S1', node_id=nid, **kw)
+                    return {'capacities': obj} if ty == CAP else {'labels': obj}
+                return {}
+            n0 = topo.add_node(name='nd0', site='S1', node_id=NODES[0], **own(NODES[0]))
+            n0.add_component(name='nd0-gpu1', model='Tesla T4', node_id=NODES[1], ctype=fu.ComponentType.GPU, **own(NODES[1]))
+            ikw = {'interface_labels': [own(NODES[2])['labels'] if 'labels' in own(NODES[2]) else CL.Labels()]}
+            nic = n0.add_component(name='nd0-nic1', model='ConnectX-6', node_id='nic-comp', network_service_node_id='nic-ns',
+                                   interface_node_ids=[NODES[2]], ctype=fu.ComponentType.SharedNIC, **ikw)
+            sw = topo.add_node(name='sw0', site='S1', node_id=NODES[3], ntype=fu.NodeType.Switch, **own(NODES[3]))
+            ns = sw.add_network_service(name='sw0-ns', node_id=NODES[4], nstype=fu.ServiceType.MPLS, **own(NODES[4]))
+            ifc = ns.add_interface(name='p1', node_id=NODES[5], itype=fu.InterfaceType.TrunkPort, **own(NODES[5]))
+            all_ids = NODES + ['nic-comp', 'nic-ns']
+            if case['mode'] == 'single':
+                # what single_delegation will copy: the capacities / labels every element REALLY has (the component
+                # catalogue gives NIC components and their ports some of their own)
+                elements = [n0] + list(n0.components.values()) + [i for c in n0.components.values() for i in c.interface_list] \
+                    + [sw, ns] + list(ns.interface_list)
+                eff, built = [], []
+                for e in elements:
+                    obj = e.get_property(pname='capacities' if ty == CAP else 'labels')
+                    if obj is None:
+                        continue
+                    dd = [[k, v] for k, v in obj.__dict__.items() if v is not None and not (ty == CAP and v == 0)]
+                    d = D.Delegation(atype=T(ty), delegation_id=case['did'], aformat=F('single'))
+                    d.set_details(obj)
+                    ds1 = D.Delegations(atype=T(ty))
+                    ds1.add_delegations(d)
+                    eff.append([e.node_id, ty, [{'type': ty, 'id': case['did'], 'fmt': 'single', 'pool': None, 'details': [ty, dd]}]])
+                    built.append([e.node_id, obs_delegations(ds1)])
+                res['singles_built'] = built
+                res['effective_singles'] = eff
+                res['verdicts'] = verdicts_for([sp['details'][1] for _, _, sps in eff for sp in sps if ty == LAB])
             arm = topo.as_arm()
             pname = ABCPropertyGraph.PROP_CAPACITY_DELEGATIONS if ty == CAP else ABCPropertyGraph.PROP_LABEL_DELEGATIONS
             try:
@@ -1341,12 +1372,12 @@ class Annotate(Stream):
                 props = {}
                 other = ABCPropertyGraph.PROP_LABEL_DELEGATIONS if ty == CAP else ABCPropertyGraph.PROP_CAPACITY_DELEGATIONS
                 stray = []
-                for nid in NODES:
+                for nid in all_ids:
                     _, p = arm.get_node_properties(node_id=nid)
                     if p.get(pname) is not None:
                         props[nid] = obs_jdoc(p[pname])
-                    if p.get(other) is not None:
-                        stray.append(nid)
+                    if p.get(other) is not None and case['mode'] != 'single':
+                        stray.append(nid)      # (single_delegation also runs the pass of the other type)
                 res['props'] = [[[n, d] for n, d in sorted(props.items())]]
                 res['stray'] = stray
             except Exception as e:
@@ -1380,7 +1411,8 @@ class Annotate(Stream):
             obs = [o['idx']]
         else:
             obs = [o['props'], None if is_err(o['props']) else [o['back'], o['pools']]]
-        singles = clist(['(%s, %s, %s)' % (cstr(n), c_ty(t), clist([c_spec(s) for s in sps])) for n, t, sps in case['singles']])
+        singles = clist(['(%s, %s, %s)' % (cstr(n), c_ty(t), clist([c_spec(s) for s in sps]))
+                         for n, t, sps in o.get('effective_singles', case['singles'])])
         return '((%s, %s, %s, %s), %s)' % (c_verdicts(o['verdicts']), c_ty(case['ty']),
                                            clist([c_pspec(s, d) for s, d in zip(case['specs'], o['dets'])]),
                                            singles, py_val(obs))
@@ -1555,7 +1587,7 @@ class Hist(Stream):
 
     def gen(self, rng, tier):
         self.shard = 130 if tier == 'quick' else 400
-        n = 300 if tier == 'quick' else 3000
+        n = 220 if tier == 'quick' else 3000
         out = []
         for _ in range(n):
             ty = rng.choice([CAP, LAB])
@@ -1875,13 +1907,13 @@ class DHist(Stream):
     rule = ('histories of 6..20 operations on ONE Delegations container over shared Delegation objects: Delegation(...), '
             'set_details on any object (also after it was added), add_delegations with 1..4 arguments, remove_by_id, the '
             'queries get_by_delegation_id / get_delegation_ids / get_delegations_as_list / get_sole_delegation / '
-            'return_delegations_for_id / get_details_as_dict (returned containers are then modified by the harness), to_json at '
+            'return_delegations_for_id / get_details_as_dict / the per-field getters of a Delegation (returned containers are then modified by the harness), to_json at '
             'any point and repeatedly, from_json of any earlier text; non-trivial = to_json was called at least twice with a '
             'remove / add / set_details in between; distinct by case value')
 
     def gen(self, rng, tier):
         self.shard = 130 if tier == 'quick' else 400
-        n = 300 if tier == 'quick' else 4000
+        n = 220 if tier == 'quick' else 4000
         out = []
         for _ in range(n):
             ty = rng.choice([CAP, LAB])
@@ -1928,7 +1960,7 @@ class DHist(Stream):
                 elif r == 11:
                     ops.append(['for', rng.choice(ids + ['nosuchid'])])
                 elif r == 12:
-                    ops.append(['dict', rng.randrange(nobj)])
+                    ops.append(rng.choice([['dict', rng.randrange(nobj)], ['fields', rng.randrange(nobj)]]))
                 elif nenc:
                     ops.append(['decode', rng.randrange(nenc)])
             ops.append(['encode'])
@@ -2023,6 +2055,10 @@ class DHist(Stream):
                 o = None if r is None else obs_delegations(r)
                 if r is not None:
                     r.delegations.clear()
+            elif k == 'fields':
+                d = objs[op[1]]
+                o = [d.get_delegation_type().value, d.get_delegation_id(), d.get_format().value, d.get_pool_name(),
+                     obs_det(d.get_details())]
             elif k == 'dict':
                 r = objs[op[1]].get_details_as_dict()
                 o = [obs_ddict(r)]
@@ -2067,8 +2103,8 @@ class DHist(Stream):
                 terms.append('(DAdd %s)' % clist([cnat(i) for i in op[1]]))
             elif k in ('remove', 'get', 'for'):
                 terms.append('(%s %s)' % ({'remove': 'DRemove', 'get': 'DGet', 'for': 'DFor'}[k], cstr(op[1])))
-            elif k in ('dict', 'decode'):
-                terms.append('(%s %s)' % ({'dict': 'DDict', 'decode': 'DDecode'}[k], cnat(op[1])))
+            elif k in ('dict', 'decode', 'fields'):
+                terms.append('(%s %s)' % ({'dict': 'DDict', 'decode': 'DDecode', 'fields': 'DFields'}[k], cnat(op[1])))
             else:
                 terms.append({'ids': 'DIds', 'list': 'DAsList', 'sole': 'DSole', 'encode': 'DEncode'}[k])
         return '((%s, %s, %s), %s)' % (c_verdicts(o['verdicts']), c_ty(case['ty']), clist(terms),
@@ -2083,7 +2119,7 @@ class DHist(Stream):
             ids = [d[1] for d in snap[1]]
             if len(set(ids)) != len(ids):
                 return 'the container holds a delegation id twice: %r' % ids
-            if k in ('new', 'get', 'ids', 'list', 'sole', 'for', 'dict', 'encode', 'decode') and snap != prev:
+            if k in ('new', 'get', 'ids', 'list', 'sole', 'for', 'dict', 'fields', 'encode', 'decode') and snap != prev:
                 return 'the read-only operation %s changed the container (or handed out a live reference): %r -> %r' % (k, prev, snap)
             if k == 'remove':
                 if snap[1] != [d for d in prev[1] if d[1] != op[1]]:
@@ -2191,6 +2227,219 @@ class DHist(Stream):
 
 
 # ------------------------------------------------------------------------------------------------
+# stream text: FOREIGN texts (decode side, text level)
+# ------------------------------------------------------------------------------------------------
+
+def walk_label_pairs(v):
+    """(field, value) pairs under any "labels" key of a parsed document, for the validator verdicts"""
+    out = []
+    if isinstance(v, dict):
+        for inner in v.values():
+            if isinstance(inner, dict) and isinstance(inner.get(W_LABS), dict):
+                out.append([[k, x] for k, x in inner[W_LABS].items()
+                            if isinstance(x, str) or (isinstance(x, list) and all(isinstance(i, str) for i in x))])
+    return out
+
+
+def render(v, rng, ws):
+    """JSON text of a python value built from (key, value) PAIR LISTS for objects (so that duplicate keys can be
+    written), with optional random whitespace"""
+    sp = (lambda: rng.choice(['', ' ', '  ', '\n', '\t'])) if ws else (lambda: '')
+    if isinstance(v, tuple) and v[0] == 'obj':
+        return '{' + sp() + (',' + sp()).join(json.dumps(k) + sp() + ':' + sp() + render(x, rng, ws) for k, x in v[1]) + sp() + '}'
+    if isinstance(v, tuple) and v[0] == 'raw':
+        return v[1]
+    if isinstance(v, list):
+        return '[' + sp() + (',' + sp()).join(render(x, rng, ws) for x in v) + sp() + ']'
+    return json.dumps(v)
+
+
+FOREIGN_VALUES = [None, ('raw', '1.5'), ('raw', '-0.0'), ('raw', '1e3'), ('raw', 'NaN'), [1, 'a'], [['x']], ('obj', [['a', 1]]),
+                  ('obj', []), 7, -3, 'text', [], ['a', 'b']]
+
+
+class Text(Stream):
+    name = 'text'
+    header = HEADER.replace('Model.Pools12.', 'Model.Pools12 Model.Deleg12T.')
+    case_type = '(verdicts * dtype * option str) * val'
+    check_fn = 'check_text'
+    rule = ('FOREIGN texts handed to Delegations.from_json: None / "" / "None" / "{}", texts the encoder never writes: random '
+            'whitespace, permuted keys, duplicate delegation ids and duplicate inner keys, unknown keys, value kinds swapped at '
+            'every position (top level, entry, pool name, details, detail values: null, floats, nested lists / objects, ints, '
+            'strings), truncated / ill-formed JSON; compared: accept / reject class, decoded value, re-encoded TEXT byte for '
+            'byte, decode of the re-encoded text; non-trivial = accepted with a delegation or rejected after parsing; '
+            'distinct by text')
+
+    def gen(self, rng, tier):
+        self.shard = 130 if tier == 'quick' else 400
+        n = 300 if tier == 'quick' else 6000
+        out = [{'ty': t, 'text': x} for t in (CAP, LAB) for x in (None, '', 'None', '{}', ' {} ', 'null', '[]', '3', '"x"', '{"d1": 3}',
+                                                                    '{"d1": null}', '{"d1": []}', '{', '{"d1": {"pool": "p"}} x')]
+        for _ in range(n):
+            ty = rng.choice([CAP, LAB])
+            doc = gen_doc(rng, ty, rng.choice([0.0, 0.0, 0.2, 0.5]))
+            entries = []
+            for k, inner in doc:
+                pairs = []
+                for kk, vv in inner:
+                    if kk in (W_CAPS, W_LABS):
+                        pairs.append([kk, ('obj', [[a, b] for a, b in vv])])
+                    else:
+                        pairs.append([kk, vv])
+                entries.append([k, ('obj', pairs)])
+            m = rng.randrange(12)
+            def pick_entry():
+                return rng.choice(entries)[1][1] if entries else None
+            if m == 0 and entries:          # duplicate delegation id (last one wins in json.loads)
+                e = copy.deepcopy(rng.choice(entries))
+                entries.insert(rng.randrange(len(entries) + 1), [e[0], ('obj', [[W_POOL, 'dup']])])
+            elif m == 1 and entries:        # duplicate inner key
+                pe = pick_entry()
+                if pe:
+                    k0 = rng.choice(pe)
+                    pe.append([k0[0], rng.choice([k0[1], 'other', None])])
+            elif m == 2 and entries:        # unknown keys
+                pick_entry().insert(0, ['comment', rng.choice(FOREIGN_VALUES)])
+                if rng.random() < 0.5:
+                    entries.append(['zz_extra', ('obj', [[W_POOL, 'p1'], ['x', 1]])])
+            elif m == 3 and entries:        # a detail value of another kind
+                pe = pick_entry()
+                det = [x for x in pe if x[0] in (W_CAPS, W_LABS)]
+                if det and det[0][1][1]:
+                    rng.choice(det[0][1][1])[1] = rng.choice(FOREIGN_VALUES)
+                elif det:
+                    det[0][1][1].append([rng.choice(cap_fields() if ty == CAP else lab_fields()), rng.choice(FOREIGN_VALUES)])
+            elif m == 4 and entries:        # details that are not an object
+                pe = pick_entry()
+                for x in pe:
+                    if x[0] in (W_CAPS, W_LABS):
+                        x[1] = rng.choice([None, 5, 'caps', [], [1], ('raw', '2.5')])
+            elif m == 5 and entries:        # pool name null
+                pe = pick_entry()
+                for x in pe:
+                    if x[0] in (W_POOL, W_POOL_ID):
+                        x[1] = None
+            elif m == 6 and entries:        # an entry that is not an object
+                rng.choice(entries)[1] = rng.choice([None, 3, 'x', [], ['pool'], ('raw', '1.0')])
+            elif m == 7:                    # top level of another kind / ill-formed text
+                txt = rng.choice(['[{"d1": {"pool": "p"}}]', 'null', '"{}"', '12', 'true', '{"d1": {"pool": "p"}', '{"d1" {"pool": "p"}}',
+                                  "{'d1': {'pool': 'p'}}", '{"d1": {"pool": "p"},}', '\ufeff{}', '{"d1": {"pool": "p\\u00e9\\ud83d\\ude00"}}',
+                                  '{"d1": {"pool": "a\\u0062c"}}', '{"d\\u0031": {"pool": "p"}}'])
+                out.append({'ty': ty, 'text': txt})
+                continue
+            elif m == 8 and entries:        # permuted keys
+                for e in entries:
+                    rng.shuffle(e[1][1])
+                rng.shuffle(entries)
+            out.append({'ty': ty, 'text': render(('obj', entries), rng, ws=rng.random() < 0.5)})
+        return out
+
+    def corpus(self):
+        return [
+            {'ty': CAP, 'text': '{"d1": {"pool_id": "_", "capacities": {"cpu": null, "ram": 1}}}'},
+            {'ty': CAP, 'text': '{"d1": {"pool": "p1"}, "d1": {"pool": "p2"}}'},
+            {'ty': LAB, 'text': ' { "d1" : { "labels" : { "vlan" : [ "1" , "2" ] } , "pool_id" : "_" } } '},
+        ] + [c for c in load_corpus('text')]
+
+    def observe(self, case):
+        D, CL = lib()
+        ty, text = case['ty'], case['text']
+        re_text, redec = None, None
+        try:
+            ds = D.Delegations.from_json(json_str=text, atype=T(ty))
+            dec = [None if ds is None else obs_delegations(ds)]
+        except Exception as e:
+            dec, ds = err(e), None
+        if ds is not None:
+            try:
+                t2 = ds.to_json()
+                re_text = [t2]
+                try:
+                    d2 = D.Delegations.from_json(json_str=t2, atype=T(ty))
+                    redec = [None if d2 is None else obs_delegations(d2)]
+                except Exception as e:
+                    redec = err(e)
+            except Exception as e:
+                re_text = err(e)
+        parsed, parse_ok = None, False
+        if text not in (None, '', 'None'):
+            try:
+                parsed = json.loads(text)
+                parse_ok = True
+            except Exception:
+                pass
+        return {'dec': dec, 'retext': re_text, 'redec': redec, 'parse_ok': parse_ok,
+                'verdicts': verdicts_for(walk_label_pairs(parsed))}
+
+    def to_coq(self, case, o):
+        obs = [o['dec'], None if (is_err(o['dec']) or o['dec'][0] is None) else [o['retext'], o['redec'] if not is_err(o['retext']) else None]]
+        return '((%s, %s, %s), %s)' % (c_verdicts(o['verdicts']), c_ty(case['ty']), copt(case['text'], cstr), py_val(obs))
+
+    def known_signature(self, case, o, why):
+        return why or ''
+
+    def oracle(self, case, o):
+        """closure of the decode side, restated over the implementation only"""
+        text = case['text']
+        if text in (None, '', 'None'):
+            return None if o['dec'] == [None] else 'from_json(%r) should give no Delegations' % (text,)
+        if not o['parse_ok']:
+            return None if is_err(o['dec']) else 'from_json accepted a text json.loads rejects'
+        if is_err(o['dec']) or o['dec'][0] is None:
+            return None
+        dec = o['dec'][0]
+        ids = [d[1] for d in dec[1]]
+        if len(set(ids)) != len(ids):
+            return 'the decoded set holds a delegation id twice'
+        for d in dec[1]:
+            if d[2] == 2 and d[4] is not None:
+                return 'a decoded reference carries details'
+            if d[4] is not None and d[4][0] != dec[0]:
+                return 'decoded details of the other type'
+        encodable = all(d[2] == 2 or nonempty_det(d[4]) for d in dec[1])
+        if is_err(o['retext']):
+            return None if not encodable else 'the decoded set cannot be re-encoded: ' + o['retext']['err']
+        if is_err(o['redec']) or o['redec'][0] != dec:
+            if any(d[4] is not None and d[4][0] == 1 and any(v is None for v in d[4][1]) for d in dec[1]):
+                return ('KF-null-capacity: decode(encode(d)) differs from the decoded d: a null capacity value decodes to a '
+                        'None field, which the encoding drops and the next decode reads as 0')
+            return 'decode(encode(d)) differs from the decoded d: %r vs %r' % (o['redec'], dec)
+        # encode . decode . encode = encode
+        D, CL = lib()
+        t3 = D.Delegations.from_json(json_str=o['retext'][0], atype=T(case['ty'])).to_json()
+        if t3 != o['retext'][0]:
+            return 'encode(decode(encode(d))) differs from encode(d)'
+        # documented json behaviour (duplicate keys: last wins, whitespace, key order) is classified, not alarmed:
+        # decoding the canonical re-dump of what json.loads read gives the same set
+        try:
+            canon = D.Delegations.from_json(json_str=json.dumps(json.loads(text)), atype=T(case['ty']))
+            if obs_delegations(canon) != dec:
+                return 'the decoded set depends on more than the JSON value of the text'
+        except Exception as e:
+            return 'the canonical re-dump of an accepted text is refused: ' + type(e).__name__
+        return None
+
+    def key(self, case, o):
+        if o['parse_ok'] and (is_err(o['dec']) or (o['dec'][0] is not None and o['dec'][0][1])):
+            return stable_hash(case)
+        return None
+
+    def histogram(self, cases, obs):
+        h = {'no_delegations': 0, 'accepted': 0, 'rejected': {}}
+        for c, o in zip(cases, obs):
+            if is_err(o['dec']):
+                h['rejected'][o['dec']['err']] = h['rejected'].get(o['dec']['err'], 0) + 1
+            elif o['dec'][0] is None:
+                h['no_delegations'] += 1
+            else:
+                h['accepted'] += 1
+        return h
+
+    def describe(self, case, o):
+        return {'case': case, 'impl': {'dec': o['dec'], 'retext': o['retext']}}
+
+
+# ------------------------------------------------------------------------------------------------
 def load_corpus(stream):
     d = os.path.join(VERIF, 'corpus', 'C12')
     out = []
@@ -2203,8 +2452,8 @@ def load_corpus(stream):
 class C12(Check):
     pid = 'C12'
     translators = ['gen_deleg']
-    model_targets = ['Model/Deleg12.vo', 'Model/Pools12.vo', 'Model/Pools12H.vo', 'Model/Deleg12H.vo']
-    streams = [Ops(), Json(), PoolsS(), Inc(), Annotate(), Hist(), DHist()]
+    model_targets = ['Model/Deleg12.vo', 'Model/Pools12.vo', 'Model/Pools12H.vo', 'Model/Deleg12H.vo', 'Model/Deleg12T.vo']
+    streams = [Ops(), Json(), PoolsS(), Inc(), Annotate(), Hist(), DHist(), Text()]
     trusted_base = [
         'Coq 8.16.1 kernel (coqc), vm_compute for the correspondence evaluation; no native_compute',
         'Print Assumptions of every C12 theorem: Closed under the global context (no axioms)',
@@ -2223,6 +2472,19 @@ class C12(Check):
         'a document is a JSON VALUE: json.loads has already collapsed a delegation id repeated in the text (last one wins) '
         'before the library sees it',
     ]
+
+
+    def refuted_witnesses(self):
+        D, CL = lib()
+
+        def null_capacity():
+            text = '{"d1": {"pool_id": "_", "capacities": {"cpu": null, "ram": 1}}}'
+            d = D.Delegations.from_json(json_str=text, atype=T(CAP))
+            d2 = D.Delegations.from_json(json_str=d.to_json(), atype=T(CAP))
+            a, b = obs_delegations(d), obs_delegations(d2)
+            return a != b, {'text': text, 'decoded': a, 'decoded_again': b}
+
+        return [('C12_decode_null_capacity_refuted', null_capacity)]
 
 
 if __name__ == '__main__':
